@@ -172,6 +172,14 @@ func (c *specCtx) lookupLocal(name string) (Val, bool) {
 		}
 	}
 	if len(cands) == 0 {
+		// captured variables of a closure verified on its own: their current value
+		for i, fv := range c.fr.fn.FreeVars {
+			if fv.Name() == name && i < len(c.fr.freeVars) {
+				if p, ok := c.fr.freeVars[i].(VPtr); ok && p.L != nil {
+					return c.loadLoc(p.L), true
+				}
+			}
+		}
 		// heap-allocated locals
 		for v, r := range c.fr.regs {
 			if a, ok := v.(*ssa.Alloc); ok && a.Comment == name {
@@ -903,6 +911,12 @@ func (c *specCtx) evalCall(n *ECall) Val {
 		}
 		tt := c.e.lookupTimeType()
 		return VTime{Ite(Eq(iv.Tag, Num(int64(c.e.typeTag(tt)))), iv.Data, Zero)}
+	case "closed": // the channel has been closed (monotone: once true it stays true)
+		ch, ok := c.eval(n.Args[0]).(VChan)
+		if !ok {
+			c.fail("closed needs a channel")
+		}
+		return VBool{Select(c.heap(chanHeap, RowB), ch.Id)}
 	case "payload": // scalar stored in an interface value (the dynamic value of an int32 boxed into interface{})
 		iv, ok := c.eval(n.Args[0]).(VIface)
 		if !ok {
